@@ -153,6 +153,10 @@ def getitem(ip, o, idx):
             return o.fn(ipx)
         if isinstance(idx, (list, Seq)) and o.kind in ('ndarray', 'range'):
             ids = as_seq(idx)
+            nn = concrete_int(ids.length)
+            if nn is not None and nn <= 16:
+                items = [getitem(ip, o, ids.fn(z3.IntVal(k))) for k in range(nn)]
+                return Seq.from_list(items, 'ndarray') if items else Seq(0, o.fn, 'ndarray')
             return fancy_index(ip, o, ids)
         if isinstance(idx, tuple) and len(idx) == 1:
             return getitem(ip, o, idx[0])
@@ -1374,6 +1378,16 @@ def itertools_product(ip, args, kw):
     raise Unsupported('itertools.product over symbolic-length sequences')
 
 
+def np_nonzero(ip, args, kw):
+    """np.nonzero(mask) for a 1-d mask of concrete length: every subset is explored."""
+    m = as_seq(args[0])
+    n = concrete_int(m.length)
+    if n is None or n > 6:
+        raise Unsupported('np.nonzero on symbolic-length mask')
+    idx = [k for k in range(n) if ip.decide(to_z3(m.fn(z3.IntVal(k))), 'nonzero[%d]' % k)]
+    return (Seq.from_list(idx, 'ndarray') if idx else Seq(0, lambda i: z3.IntVal(0), 'ndarray'),)
+
+
 def np_ceil(ip, args, kw):
     x = args[0]
     if is_int(x):
@@ -1395,7 +1409,7 @@ def np_abs(ip, args, kw):
 
 
 LIB = {
-    'numpy.ceil': np_ceil, 'numpy.floor': np_floor, 'numpy.abs': np_abs, 'numpy.absolute': np_abs,
+    'numpy.nonzero': np_nonzero, 'numpy.ceil': np_ceil, 'numpy.floor': np_floor, 'numpy.abs': np_abs, 'numpy.absolute': np_abs,
     'numpy.arange': np_arange, 'numpy.array': np_array, 'numpy.round': np_round,
     'numpy.min': np_min, 'numpy.max': np_max, 'numpy.append': np_append,
     'numpy.allclose': np_allclose, 'copy.copy': copy_copy, 'copy.deepcopy': copy_deepcopy,
